@@ -45,6 +45,29 @@ Additions of phase 4 (see notes/PHASE4_pylite2.md):
   * `[v for v in it]` / `list(v for v in it)` / `list(list(it))` are `list(it)`;
   * `not (a in b)`, `not (a not in b)`, `not (a is b)`, `not (a is not b)` are written as the complementary operator.
 
+Additions of phase 5 (CLI plumbing, see notes/PHASE5_plumbing.md; the first four only with `extract_funcs(..., plumbing=True)`,
+so that the renderings of the earlier modules stay byte-identical):
+  * a call WITH keyword arguments of something that is not inlined is the external `f(k1=,k2=)` whose arguments are the
+    positional ones followed by the keyword values, keywords sorted by name when that cannot change which exception
+    is raised first (at most one value is not a plain name / constant / attribute chain), so that reordering the
+    keywords does not change the translation;
+  * a nested helper that cannot be inlined (its body is outside the subset, e.g. string parsing) and that reads no
+    variable of the enclosing function is the OPAQUE external `helper#<k>` (k = its position among the nested defs:
+    renaming it changes nothing); the theorem states what it assumes about it;
+  * `any(v == y for v in xs)` is `y in xs`; a call `C(x, k=y)` of a class / function defined at module level of the same
+    file is written with every argument as a keyword (`C(a=,k=)`), whichever way the source passes them;
+  * a constructor `C.__init__` made of `self.<attr> = <expr>` statements is translated as the function returning the dict
+    `{"<attr>": value, …}` (attributes in alphabetical order) of what it stores;
+  * `if c: return a` directly followed by `return b` (and `if c: return a else: return b`) is `return a if c else b`;
+  * `for x in it: if c: return True` directly followed by `return False` is `return any(c for x in it)`;
+  * the empty dict literal `{}`; `xs.index(v)`, `zip(xs, ys)`, `d.items()` (builtins of the interpreter);
+    `d.setdefault(k, v)` as a statement on a local dict is `t = v; if k not in d: d[k] = t`;
+  * `<name>[i].append(v)` is `<name>[i] = <name>[i] + [v]` under the side conditions of `append` on `<name>` and when
+    every element ever put into `<name>` is a fresh list (a list display), so that the inner lists are unshared;
+  * a comprehension with a tuple target over `zip(a, b, …)` with as many arguments as targets:
+    `[e for x, y in zip(a, b)]` is `[e[x := t[0], y := t[1]] for t in zip(a, b)]`;
+  * `a, b = h(…)` and `d[k] = h(…)` for a nested multi-statement helper `h` are inlined like `x = h(…)`.
+
 Parameters and local variables are alpha-normalised (v0, v1, … in order of first occurrence), so renaming them,
 reformatting, comments, docstrings and type annotations do not change the translation at all (the rendering does
 not mention the source names either, so the module's status stays 'same').  `names_of(src, funcs)` prints the mapping."""
@@ -138,7 +161,7 @@ def _gen(elt, x, it):
                                                                    ifs=[], is_async=0)])
 
 
-def normalise_loops(stmts: list) -> list:
+def normalise_loops(stmts: list, plumbing=False) -> list:
     """Three loop idioms are rewritten into the comprehension form they are equivalent to, so that writing them either
     way gives the same translation (the loop variable must not be used after the loop):
       for x in it: (if not c: return False) ; return True        ->  return all(c for x in it)
@@ -154,6 +177,11 @@ def normalise_loops(stmts: list) -> list:
             if _const_return(inner, False) and nxt and _const_return(nxt[0], True) and len(rest) == 1 \
                     and isinstance(iff.test, ast.UnaryOp) and isinstance(iff.test.op, ast.Not):
                 call = ast.Call(func=ast.Name(id="all", ctx=ast.Load()), args=[_gen(iff.test.operand, x, it)], keywords=[])
+                out.append(ast.Return(value=call))
+                i += 2
+                continue
+            if plumbing and _const_return(inner, True) and nxt and _const_return(nxt[0], False) and len(rest) == 1:
+                call = ast.Call(func=ast.Name(id="any", ctx=ast.Load()), args=[_gen(iff.test, x, it)], keywords=[])
                 out.append(ast.Return(value=call))
                 i += 2
                 continue
@@ -181,6 +209,18 @@ def normalise_loops(stmts: list) -> list:
                 out.append(ast.Return(value=call))
                 i += 3
                 continue
+        if plumbing and isinstance(s, ast.If) and len(s.body) == 1 and isinstance(s.body[0], ast.Return) \
+                and s.body[0].value is not None:
+            other = None
+            if len(s.orelse) == 1 and isinstance(s.orelse[0], ast.Return) and s.orelse[0].value is not None:
+                other, used = s.orelse[0].value, 1
+            elif not s.orelse and nxt and isinstance(nxt[0], ast.Return) and nxt[0].value is not None \
+                    and len(stmts) == i + 2:
+                other, used = nxt[0].value, 2
+            if other is not None:
+                out.append(ast.Return(value=ast.IfExp(test=s.test, body=s.body[0].value, orelse=other)))
+                i += used
+                continue
         out.append(s)
         i += 1
     return out
@@ -204,9 +244,21 @@ def stdlib_loggers(tree: ast.AST) -> set:
 
 
 class Tr:
-    def __init__(self, fn: ast.FunctionDef, enums: dict[str, list[str]], loggers=frozenset()):
-        self.fn, self.enums, self.loggers = fn, enums, loggers
+    def __init__(self, fn: ast.FunctionDef, enums: dict[str, list[str]], loggers=frozenset(), plumbing=False,
+                 opaque=(), module=None):
+        self.fn, self.enums, self.loggers, self.plumbing, self.module = fn, enums, loggers, plumbing, module
         self.helpers = {s.name: s for s in fn.body if isinstance(s, ast.FunctionDef)}
+        # helpers that are to be externals although they could be inlined (string parsing, …): given as
+        # (name, position among the nested defs); found by name, or - after a renaming - by position
+        order = [s.name for s in fn.body if isinstance(s, ast.FunctionDef)]
+        self.forced_opaque = set()
+        for name, k in opaque:
+            if name in self.helpers:
+                self.forced_opaque.add(name)
+            elif k < len(order):
+                self.forced_opaque.add(order[k])
+            else:
+                raise TranslationError(f"{fn.name}: no nested helper `{name}` / #{k}")
         self.fresh = 0
         # every name bound somewhere in the function: parameters (also of nested defs / lambdas), assignment / loop /
         # comprehension targets.  Any other name that is used as a value is a module-level one.
@@ -299,6 +351,8 @@ class Tr:
             return ("comp", x, it, self.expr(e.elt, sub2), cond)
         if isinstance(e, ast.Call):
             return self.call(e, sub)
+        if isinstance(e, ast.Dict) and not e.keys and self.plumbing:
+            return ("lit", ("dict",))
         raise TranslationError(f"unsupported expression: {_dump(e)}")
 
     def packed(self, elts, sub):
@@ -323,6 +377,27 @@ class Tr:
         if len(e.generators) != 1:
             raise TranslationError("comprehension with several `for`s")
         g = e.generators[0]
+        pairs = isinstance(g.iter, ast.Call) and not g.iter.keywords and (
+            (isinstance(g.iter.func, ast.Name) and g.iter.func.id == "zip" and len(g.iter.args) == 2      # noqa: PLR2004
+             and "zip" not in self.bound)
+            or (isinstance(g.iter.func, ast.Attribute) and g.iter.func.attr == "items" and not g.iter.args))
+        if self.plumbing and not g.is_async and isinstance(g.target, ast.Tuple) \
+                and all(isinstance(t, ast.Name) for t in g.target.elts) and pairs \
+                and len(g.target.elts) == 2 and len({t.id for t in g.target.elts}) == 2:      # noqa: PLR2004
+            # every item of `zip(a, b)` / `d.items()` is a pair, so unpacking it cannot fail: the targets are its components
+            x = self.tmp()
+            self.bound.add(x)
+            it = self.expr(g.iter, sub)
+            sub2 = {k: v for k, v in sub.items() if k not in [t.id for t in g.target.elts]}
+            for k, t in enumerate(g.target.elts):
+                sub2[t.id] = ("index", ("var", x), ("lit", ("int", k)))
+            cond = TRUE
+            if g.ifs:
+                conds = [self.expr(c, sub2) for c in g.ifs]
+                cond = conds[-1]
+                for c in reversed(conds[:-1]):
+                    cond = ("and", c, cond)
+            return x, it, cond, sub2
         if g.is_async or not isinstance(g.target, ast.Name):
             raise TranslationError("comprehension target must be a single name")
         x = g.target.id
@@ -336,8 +411,86 @@ class Tr:
                 cond = ("and", c, cond)
         return x, it, cond, sub2
 
+    def signature(self, name: str):
+        """parameter names of a class (its `__init__` without `self`, or the fields of a dataclass) / function defined
+        at module level of the file the translated function lives in; None if unknown or not plain"""
+        for n in getattr(self.module, "body", []):
+            fn = None
+            if isinstance(n, ast.FunctionDef) and n.name == name:
+                fn, skip = n, 0
+            elif isinstance(n, ast.ClassDef) and n.name == name:
+                inits = [m for m in n.body if isinstance(m, ast.FunctionDef) and m.name == "__init__"]
+                if inits:
+                    fn, skip = inits[0], 1
+                elif any((isinstance(d, ast.Name) and d.id == "dataclass") or
+                         (isinstance(d, ast.Call) and isinstance(d.func, ast.Name) and d.func.id == "dataclass")
+                         for d in n.decorator_list):
+                    return [m.target.id for m in n.body if isinstance(m, ast.AnnAssign) and isinstance(m.target, ast.Name)]
+                else:
+                    return None
+            if fn is not None:
+                a = fn.args
+                if a.vararg or a.kwarg or a.kwonlyargs or a.posonlyargs:
+                    return None
+                return [x.arg for x in a.args][skip:]
+        return None
+
+    def canonical_call(self, e: ast.Call, sub):
+        """`C(x, k=y)` for a callee `C` of the same file whose parameters are known: every argument becomes a keyword
+        (`C(a=x, k=y)`), so that writing an argument positionally or by keyword gives the same translation"""
+        f = e.func
+        if not (self.plumbing and isinstance(f, ast.Name) and f.id not in sub and f.id not in self.bound
+                and f.id not in self.helpers and f.id not in _BUILTIN and (e.args or e.keywords)):
+            return None
+        if any(k.arg is None for k in e.keywords) or any(isinstance(a, ast.Starred) for a in e.args):
+            return None
+        sig = self.signature(f.id)
+        if sig is None or len(e.args) > len(sig) or any(k.arg not in sig for k in e.keywords) \
+                or set(sig[:len(e.args)]) & {k.arg for k in e.keywords}:
+            return None
+        kws = [ast.keyword(arg=sig[i], value=a) for i, a in enumerate(e.args)] + list(e.keywords)
+        return self.kwcall(ast.Call(func=f, args=[], keywords=kws), sub)
+
+    def kwcall(self, e: ast.Call, sub):
+        """a call with keyword arguments of something that is not inlined: external `f(k1=,k2=)`"""
+        f = e.func
+        if any(k.arg is None for k in e.keywords) or any(isinstance(a, ast.Starred) for a in e.args):
+            raise TranslationError(f"call with ** / * and keywords: {_dump(e)}")
+        kws = list(e.keywords)
+        if sum(1 for k in kws if not _simple(k.value)) <= 1:
+            kws.sort(key=lambda k: k.arg)
+        suffix = "(" + ",".join(k.arg + "=" for k in kws) + ")"
+        vals = [self.expr(k.value, sub) for k in kws]
+        if isinstance(f, ast.Name) and f.id not in sub and f.id not in self.bound and f.id not in self.helpers \
+                and f.id not in ("any", "all", "reduce") and f.id not in _BUILTIN:
+            return ("ext", f.id + suffix, [self.expr(a, sub) for a in e.args] + vals)
+        if isinstance(f, ast.Attribute) and not (isinstance(f.value, ast.Name) and f.value.id[:1].isupper()
+                                                 and f.value.id not in sub and f.value.id not in self.enums):
+            return ("ext", f".{f.attr}" + suffix, [self.expr(f.value, sub)] + [self.expr(a, sub) for a in e.args] + vals)
+        raise TranslationError(f"call with keyword arguments: {_dump(e)}")
+
+    def opaque(self, h: ast.FunctionDef, args, sub):
+        """a nested helper whose body is outside the subset, as an external function (it must not read variables of
+        the enclosing function: its meaning may then not depend on the state)"""
+        if any(isinstance(a, ast.Starred) for a in args):
+            raise TranslationError(f"helper {h.name}: starred call")
+        own = {a.arg for n in ast.walk(h) if isinstance(n, (ast.FunctionDef, ast.Lambda)) for a in n.args.args} | \
+              {n.id for n in ast.walk(h) if isinstance(n, ast.Name) and isinstance(n.ctx, ast.Store)}
+        for n in ast.walk(h):
+            if isinstance(n, ast.Name) and isinstance(n.ctx, ast.Load) and n.id not in own and n.id in self.bound:
+                raise TranslationError(f"helper {h.name} is outside the subset and reads the enclosing variable {n.id}")
+            if isinstance(n, (ast.Nonlocal, ast.Global, ast.Yield, ast.YieldFrom)):
+                raise TranslationError(f"helper {h.name}: nonlocal / global / yield")
+        k = [s.name for s in self.fn.body if isinstance(s, ast.FunctionDef)].index(h.name)
+        return ("ext", f"helper#{k}", [self.expr(a, sub) for a in args])
+
     def call(self, e: ast.Call, sub):  # noqa: C901, PLR0911, PLR0912
+        canon = self.canonical_call(e, sub)
+        if canon is not None:
+            return canon
         if e.keywords:
+            if self.plumbing:
+                return self.kwcall(e, sub)
             raise TranslationError(f"call with keyword arguments: {_dump(e)}")
         f = e.func
         starred = any(isinstance(a, ast.Starred) for a in e.args)
@@ -350,6 +503,14 @@ class Tr:
                     x, it, cond, sub2 = self.generator(a, sub)
                     if cond != TRUE:
                         raise TranslationError("any/all over a filtered generator")
+                    el = a.elt
+                    if self.plumbing and name == "any" and isinstance(el, ast.Compare) and len(el.ops) == 1 \
+                            and isinstance(el.ops[0], ast.Eq) and isinstance(a.generators[0].target, ast.Name):
+                        # `any(v == y for v in xs)` / `any(y == v for v in xs)` is `y in xs` (membership by `==`)
+                        sides = [el.left, el.comparators[0]]
+                        for k in (0, 1):
+                            if isinstance(sides[k], ast.Name) and sides[k].id == x and x not in _names_in([sides[1 - k]]):
+                                return ("cmp", "isIn", self.expr(sides[1 - k], sub), it)
                     return (tag, x, it, self.expr(a.elt, sub2))
                 self.fresh += 1
                 x = f"_it{self.fresh}"
@@ -366,7 +527,16 @@ class Tr:
                     return targs[0]
                 return ("call", b, targs)
             if name in self.helpers:
-                return self.inline(self.helpers[name], e.args, sub)
+                if not self.plumbing:
+                    return self.inline(self.helpers[name], e.args, sub)
+                if name in self.forced_opaque:
+                    return self.opaque(self.helpers[name], e.args, sub)
+                try:
+                    return self.inline(self.helpers[name], e.args, sub)
+                except TranslationError:
+                    return self.opaque(self.helpers[name], e.args, sub)
+            if self.plumbing and name == "zip" and len(e.args) == 2 and not starred and name not in self.bound:  # noqa: PLR2004
+                return ("call", "zip", [self.expr(a, sub) for a in e.args])
             if name in self.bound:      # a callable VALUE (parameter / local variable)
                 if starred:
                     raise TranslationError(f"starred call of the variable {name}")
@@ -380,6 +550,10 @@ class Tr:
             if f.attr == "get" and not starred and len(e.args) in (1, 2):
                 dflt = self.expr(e.args[1], sub) if len(e.args) == 2 else ("lit", ("none",))     # noqa: PLR2004
                 return ("call", "dictGet", [self.expr(f.value, sub), self.expr(e.args[0], sub), dflt])
+            if self.plumbing and f.attr == "items" and not e.args:
+                return ("call", "items", [self.expr(f.value, sub)])
+            if self.plumbing and f.attr == "index" and not starred and len(e.args) == 1:
+                return ("call", "index", [self.expr(f.value, sub), self.expr(e.args[0], sub)])
             if starred:
                 return ("ext", f".{f.attr}*", [self.expr(f.value, sub), self.packed(e.args, sub)])
             return ("ext", f".{f.attr}", [self.expr(f.value, sub)] + [self.expr(a, sub) for a in e.args])
@@ -392,8 +566,12 @@ class Tr:
             return ("ext", name + "*", [self.packed(args, sub)])
         return ("ext", name, [self.expr(a, sub) for a in args])
 
-    def inline(self, h: ast.FunctionDef, args, sub):
+    def hbody(self, h: ast.FunctionDef) -> list:
         body = [s for s in h.body if not _is_docstring(s)]
+        return normalise_loops(body, True) if self.plumbing else body
+
+    def inline(self, h: ast.FunctionDef, args, sub):
+        body = self.hbody(h)
         params = [a.arg for a in h.args.args]
         if len(body) != 1 or not isinstance(body[0], ast.Return) or body[0].value is None:
             raise TranslationError(f"helper {h.name}: not a single `return <expr>`")
@@ -423,10 +601,24 @@ class Tr:
         if isinstance(e, ast.Call) and isinstance(e.func, ast.Name) and e.func.id in self.helpers and not e.keywords \
                 and not any(isinstance(a, ast.Starred) for a in e.args):
             h = self.helpers[e.func.id]
-            body = [s for s in h.body if not _is_docstring(s)]
+            body = self.hbody(h)
             if not (len(body) == 1 and isinstance(body[0], ast.Return) and body[0].value is not None):
+                if self.plumbing and (h.name in self.forced_opaque or not self.inlinable(h, e.args)):
+                    return None
                 return h, e.args, neg
         return None
+
+    def inlinable(self, h, args) -> bool:
+        """can the block of `h` be inlined (translated)?  Tried on a scratch copy of the translator state"""
+        import copy
+        saved = (set(self.bound), self.fresh, list(self.loop_lists))
+        try:
+            self.inline_block(h, copy.deepcopy(list(args)), "_probe")
+            return True
+        except TranslationError:
+            return False
+        finally:
+            self.bound, self.fresh, self.loop_lists = saved
 
     def inline_block(self, h: ast.FunctionDef, args, target: str) -> list:
         """`target = h(args)` with the body of `h` inlined (parameters and locals of `h` renamed apart)"""
@@ -472,6 +664,44 @@ class Tr:
             return s.value.func.value.id, s.value.func.attr, s.value.args[0]
         return None
 
+    def nested_append(self, s):
+        """`<name>[i].append(v)` as a statement -> (name, i, v) else None"""
+        if isinstance(s, ast.Expr) and isinstance(s.value, ast.Call) and isinstance(s.value.func, ast.Attribute) \
+                and s.value.func.attr == "append" and isinstance(s.value.func.value, ast.Subscript) \
+                and isinstance(s.value.func.value.value, ast.Name) \
+                and not isinstance(s.value.func.value.slice, (ast.Slice, ast.Tuple)) \
+                and len(s.value.args) == 1 and not s.value.keywords and not isinstance(s.value.args[0], ast.Starred):
+            return s.value.func.value.value.id, s.value.func.value.slice, s.value.args[0]
+        return None
+
+    def check_unshared_items(self, x: str):
+        """every item ever put into the local list `x` is a fresh list (a display / comprehension), `x` itself is only
+        bound to list displays of such items, and no item is ever read into a variable that is then mutated: then the
+        inner lists are not shared with anything and `x[i].append(v)` is `x[i] = x[i] + [v]`"""
+        fresh = lambda v: isinstance(v, (ast.List, ast.ListComp))      # noqa: E731
+        self.check_local_list(x)
+        for n in ast.walk(self.fn):
+            if isinstance(n, (ast.Assign, ast.AnnAssign)) and n.value is not None:
+                tg = n.targets if isinstance(n, ast.Assign) else [n.target]
+                for t in tg:
+                    if isinstance(t, ast.Name) and t.id == x and not (
+                            isinstance(n.value, ast.List) and all(fresh(i) for i in n.value.elts)):
+                        raise TranslationError(f"`{x}[i]` is mutated but `{x}` is not bound to a display of fresh lists")
+                    if isinstance(t, ast.Subscript) and isinstance(t.value, ast.Name) and t.value.id == x \
+                            and not fresh(n.value):
+                        raise TranslationError(f"`{x}[i]` is mutated but an item that may be shared is stored in `{x}`")
+                if isinstance(n.value, ast.Subscript) and isinstance(n.value.value, ast.Name) and n.value.value.id == x:
+                    raise TranslationError(f"`{x}[i]` is mutated and an item of `{x}` is aliased")
+            if isinstance(n, ast.Call) and isinstance(n.func, ast.Attribute) and isinstance(n.func.value, ast.Name) \
+                    and n.func.value.id == x:
+                if n.func.attr == "append" and len(n.args) == 1 and fresh(n.args[0]):
+                    continue
+                if n.func.attr in ("index", "count", "copy"):
+                    continue
+                raise TranslationError(f"`{x}[i]` is mutated and `{x}.{n.func.attr}(…)` may store or share an item")
+            if isinstance(n, ast.For) and isinstance(n.iter, ast.Name) and n.iter.id == x:
+                raise TranslationError(f"`{x}[i]` is mutated and `{x}` is iterated over by a loop")
+
     def check_local_list(self, x: str):
         """value semantics = Python's semantics only for a local that is bound to fresh lists and never aliased"""
         if x in self.params or x not in self.bound:
@@ -489,7 +719,7 @@ class Tr:
                     raise TranslationError(f"`{x}` is mutated and aliased")
 
     def block(self, stmts) -> list:
-        stmts = normalise_loops([s for s in stmts if not _is_docstring(s)])
+        stmts = normalise_loops([s for s in stmts if not _is_docstring(s)], self.plumbing)
         for k, s in enumerate(stmts):
             m = self.mutation(s)
             if m and m[0] in self.loop_lists:
@@ -508,6 +738,27 @@ class Tr:
             return []
         if self.is_log_call(s):
             return []
+        if self.plumbing and isinstance(s, ast.Expr) and isinstance(s.value, ast.Call) \
+                and isinstance(s.value.func, ast.Attribute) and s.value.func.attr == "setdefault" \
+                and isinstance(s.value.func.value, ast.Name) and len(s.value.args) == 2 and not s.value.keywords \
+                and not any(isinstance(a, ast.Starred) for a in s.value.args):      # noqa: PLR2004
+            # `d.setdefault(k, v)` with the result discarded: `t = v; if k not in d: d[k] = t` (v is evaluated anyway)
+            dname = s.value.func.value.id
+            if dname in self.params or dname not in self.bound:
+                raise TranslationError(f"setdefault on `{dname}`, which is not a local dict of this function")
+            t = self.tmp()
+            self.bound.add(t)
+            k = self.expr(s.value.args[0])
+            return [("assign", t, self.expr(s.value.args[1])),
+                    ("ite", ("cmp", "notIn", k, ("var", dname)), [("setIndex", dname, k, ("var", t))], [])]
+        na = self.nested_append(s) if self.plumbing else None
+        if na:
+            x, i, v = na
+            self.check_unshared_items(x)
+            if x in self.loop_lists:
+                raise TranslationError(f"`{x}[i]` is mutated while `{x}` is iterated over")
+            idx = self.expr(i)
+            return [("setIndex", x, idx, ("bin", "add", ("index", ("var", x), idx), ("tuple", [self.expr(v)])))]
         m = self.mutation(s)
         if m:
             x, meth, v = m
@@ -530,6 +781,12 @@ class Tr:
                         ast.Expr(value=ast.Call(func=ast.Attribute(value=ast.Name(id=tg.id, ctx=ast.Load()), attr="append",
                                                                    ctx=ast.Load()), args=[v.elt], keywords=[]))])])
                     return [("assign", tg.id, ("tuple", []))] + self.stmt(loop)
+            if self.plumbing and tg is not None and not isinstance(tg, ast.Name):
+                bh = self.block_helper(s.value)
+                if bh and not bh[2]:
+                    t = self.tmp()
+                    self.bound.add(t)
+                    return self.inline_block(bh[0], bh[1], t) + [self.assign(tg, ("var", t))]
         if isinstance(s, ast.Assert):
             # `assert c[, msg]` is `if not c: raise AssertionError` (the message is not part of the modelled result)
             return [("ite", ("not", self.expr(s.test)), [("raise", "AssertionError")], [])]
@@ -681,18 +938,75 @@ def canonical_init_prefix(body: list) -> list:
     return [("assign", n, v) for n, v in run] + rest
 
 
-def translate_function(fn: ast.FunctionDef, enums, loggers=frozenset(), scoped=False) -> dict:
+def constructor_as_function(fn: ast.FunctionDef) -> ast.FunctionDef:
+    """`__init__(self, …)` whose statements at top level are `self.<attr> = <expr>` (reads of `self.<attr>` after the
+    assignment allowed) as the function `(…) -> {"<attr>": value, …}` (attributes in alphabetical order): what the
+    constructor stores.  Anything else that mentions `self` is outside the subset."""
+    import copy
+    fn = copy.deepcopy(fn)
+    if not fn.args.args:
+        raise TranslationError("__init__ without self")
+    self_name = fn.args.args[0].arg
+    fn.args.args = fn.args.args[1:]
+    attrs, body = [], []
+    var = lambda a: f"{self_name}.{a}"      # noqa: E731  (not a Python identifier: cannot clash with a local)
+
+    class R(ast.NodeTransformer):
+        def visit_Attribute(self, n):       # noqa: N802
+            if isinstance(n.value, ast.Name) and n.value.id == self_name:
+                if n.attr not in attrs or not isinstance(n.ctx, ast.Load):
+                    raise TranslationError(f"__init__: `{self_name}.{n.attr}` used before it is assigned / not as a value")
+                return ast.copy_location(ast.Name(id=var(n.attr), ctx=ast.Load()), n)
+            return self.generic_visit(n)
+
+        def visit_Name(self, n):            # noqa: N802
+            if n.id == self_name:
+                raise TranslationError("__init__: `self` used other than as `self.<attr>`")
+            return n
+
+    for st in fn.body:
+        if _is_docstring(st) or isinstance(st, ast.Pass):
+            continue
+        tg = None
+        if isinstance(st, ast.Assign) and len(st.targets) == 1:
+            tg, val = st.targets[0], st.value
+        elif isinstance(st, ast.AnnAssign) and st.value is not None:
+            tg, val = st.target, st.value
+        if tg is not None and isinstance(tg, ast.Attribute) and isinstance(tg.value, ast.Name) and tg.value.id == self_name:
+            val = R().visit(val)
+            if tg.attr not in attrs:
+                attrs.append(tg.attr)
+            body.append(ast.Assign(targets=[ast.Name(id=var(tg.attr), ctx=ast.Store())], value=val))
+        else:
+            body.append(R().visit(st))
+    res = "<stored>"
+    body.append(ast.Assign(targets=[ast.Name(id=res, ctx=ast.Store())], value=ast.Dict(keys=[], values=[])))
+    for a in sorted(attrs):
+        body.append(ast.Assign(targets=[ast.Subscript(value=ast.Name(id=res, ctx=ast.Load()), slice=ast.Constant(value=a),
+                                                      ctx=ast.Store())], value=ast.Name(id=var(a), ctx=ast.Load())))
+    body.append(ast.Return(value=ast.Name(id=res, ctx=ast.Load())))
+    fn.body = body
+    ast.fix_missing_locations(fn)
+    return fn
+
+
+def translate_function(fn: ast.FunctionDef, enums, loggers=frozenset(), scoped=False, plumbing=False,
+                       opaque=(), module=None) -> dict:
+    if plumbing and fn.name == "__init__":
+        fn = constructor_as_function(fn)
     a = fn.args
     if a.vararg or a.kwarg or a.kwonlyargs or a.posonlyargs:
         raise TranslationError(f"{fn.name}: only plain positional parameters are supported")
-    tr = Tr(fn, enums, loggers)
+    tr = Tr(fn, enums, loggers, plumbing, opaque, module)
     params, body, names = normalise_names([p.arg for p in a.args], canonical_init_prefix(tr.block(fn.body)), scoped)
     return {"params": params, "body": body, "names": names}
 
 
-def extract_funcs(src, funcs, scoped_comp=False) -> dict:
+def extract_funcs(src, funcs, scoped_comp=False, plumbing=False, opaque=None) -> dict:
     """funcs: [(Lean name without the `Src` suffix, file, dotted path of the def inside the file)];
-    scoped_comp: comprehension variables are numbered in their own scope (modules added in phase 4)"""
+    scoped_comp: comprehension variables are numbered in their own scope (modules added in phase 4);
+    plumbing: the phase-5 additions that could change earlier renderings (see the module docstring);
+    opaque: {lean name: [(helper name, position among the nested defs)]} - nested helpers that become externals"""
     trees = {}
 
     def tree(rel):
@@ -707,7 +1021,9 @@ def extract_funcs(src, funcs, scoped_comp=False) -> dict:
     out = {}
     for lean, rel, path in funcs:
         fn, _ = find_def(tree(rel), path)
-        out[lean] = dict(translate_function(fn, enums, stdlib_loggers(tree(rel)), scoped_comp), path=f"{rel}: {path}")
+        out[lean] = dict(translate_function(fn, enums, stdlib_loggers(tree(rel)), scoped_comp, plumbing,
+                                            (opaque or {}).get(lean, ()), tree(rel)),
+                         path=f"{rel}: {path}")
     return out
 
 
@@ -746,6 +1062,8 @@ def _val(v) -> str:
         return f"(.str {_s(v[1])})"
     if k == "none":
         return ".none"
+    if k == "dict":
+        return "(.dict [])"
     if k == "enum":
         return f"(.enum {_s(v[1])} {_s(v[2])})"
     raise TranslationError(f"value {v!r}")
